@@ -50,6 +50,10 @@ pub struct Machine<T: Crdt> {
     know: Vec<BTreeSet<String>>,
     ops: BTreeMap<String, T::Op>,
     snaps: BTreeMap<String, (T::S, BTreeSet<String>)>,
+    /// replicas that executed reset_remove (or merged from one): "forgetting" is not a knowledge-preserving
+    /// step, so the equal-knowledge oracle does not apply to them
+    forgot: Vec<bool>,
+    snap_forgot: BTreeMap<String, bool>,
 }
 
 impl<T: Crdt> Machine<T> {
@@ -59,6 +63,8 @@ impl<T: Crdt> Machine<T> {
             know: (0..n).map(|_| BTreeSet::new()).collect(),
             ops: BTreeMap::new(),
             snaps: BTreeMap::new(),
+            forgot: vec![false; n],
+            snap_forgot: BTreeMap::new(),
         }
     }
     fn rep(&self, t: &str) -> Option<usize> {
@@ -121,6 +127,7 @@ impl<T: Crdt> Machine<T> {
                     Some(()) => {
                         let k2 = self.know[r2].clone();
                         self.know[r].extend(k2);
+                        self.forgot[r] |= self.forgot[r2];
                         Some(T::obs(&self.reps[r]))
                     }
                 }
@@ -129,6 +136,7 @@ impl<T: Crdt> Machine<T> {
                 let r = self.rep(toks.get(1)?)?;
                 let name = *toks.get(2)?;
                 self.snaps.insert(name.to_string(), (self.reps[r].clone(), self.know[r].clone()));
+                self.snap_forgot.insert(name.to_string(), self.forgot[r]);
                 Some("ok".into())
             }
             "MS" => {
@@ -142,6 +150,7 @@ impl<T: Crdt> Machine<T> {
                             None => Some("nomerge".into()),
                             Some(()) => {
                                 self.know[r].extend(k);
+                                self.forgot[r] |= self.snap_forgot.get(name).copied().unwrap_or(false);
                                 Some(T::obs(&self.reps[r]))
                             }
                         }
@@ -179,9 +188,7 @@ impl<T: Crdt> Machine<T> {
                 match T::reset_remove(&mut self.reps[r], &c) {
                     None => Some("norr".into()),
                     Some(()) => {
-                        // forgetting is not a knowledge-preserving step: taint the knowledge set
-                        let tok = format!("!rr{}.{}", r, self.know[r].len());
-                        self.know[r].insert(tok);
+                        self.forgot[r] = true;
                         Some(T::obs(&self.reps[r]))
                     }
                 }
@@ -253,10 +260,14 @@ impl<T: Crdt> Machine<T> {
             "E" => {
                 let mut all: Vec<(String, String, &BTreeSet<String>)> = vec![];
                 for (i, s) in self.reps.iter().enumerate() {
-                    all.push((format!("r{i}"), T::obs(s), &self.know[i]));
+                    if !self.forgot[i] {
+                        all.push((format!("r{i}"), T::obs(s), &self.know[i]));
+                    }
                 }
                 for (n, (s, k)) in self.snaps.iter() {
-                    all.push((format!("s{n}"), T::obs(s), k));
+                    if !self.snap_forgot.get(n).copied().unwrap_or(false) {
+                        all.push((format!("s{n}"), T::obs(s), k));
+                    }
                 }
                 let mut pairs = 0;
                 for i in 0..all.len() {
